@@ -241,7 +241,13 @@ impl<'g> FnCx<'g> {
                             let rest_text = self.stmts(rest, k)?;
                             return Ok(wrap(&steps, rest_text));
                         }
-                        // control-flow expressions as initialisers go through the continuation
+                        // control-flow expressions as initialisers go through the continuation;
+                        // all branches flow into one variable: one type
+                        let is_cf = matches!(strip_paren(e), syn::Expr::If(_) | syn::Expr::Match(_) | syn::Expr::Block(_));
+                        let declared_ty = match declared_ty {
+                            None if is_cf => Some(self.u.fresh_any()),
+                            other => other,
+                        };
                         self.expr_k(e, declared_ty.as_ref(), &|cx, v| {
                             let v = v.ok_or("unsupported: let without a value")?;
                             let mut steps = v.steps.clone();
@@ -293,6 +299,29 @@ impl<'g> FnCx<'g> {
     /// an expression in statement position followed by `rest`
     fn stmt_expr(&mut self, e: &syn::Expr, rest: &[syn::Stmt], k: K, _semi: bool) -> R<String> {
         match e {
+            syn::Expr::Assign(a) if matches!(strip_paren(&a.left), syn::Expr::Field(_)) => {
+                // `x.f = e`: structure update
+                let fe = match strip_paren(&a.left) {
+                    syn::Expr::Field(f) => f,
+                    _ => unreachable!(),
+                };
+                let (_, var) = self.assign_target(&fe.base)?;
+                let fname = match &fe.member {
+                    syn::Member::Named(i) => i.to_string(),
+                    _ => return unsupported("tuple field assignment", a.span()),
+                };
+                let fty = match self.u.resolve(&var.ty) {
+                    Ty::Struct(sn) => self.g.structs.get(&sn).and_then(|fs| fs.iter().find(|(n, _)| *n == fname).map(|(_, t)| t.clone())),
+                    _ => None,
+                }
+                .ok_or(format!("unsupported: assignment to field {}", fname))?;
+                let v = self.expr(&a.right, Some(&fty))?;
+                self.u.unify(&fty, &v.ty)?;
+                let mut steps = v.steps.clone();
+                steps.push(Step::Let(var.lean.clone(), format!("{{ {} with {} := {} }}", var.lean, sanitize(&fname), v.atom)));
+                let rest_text = self.stmts(rest, k)?;
+                Ok(wrap(&steps, rest_text))
+            }
             syn::Expr::Assign(a) => {
                 let (name, var) = self.assign_target(&a.left)?;
                 let v = self.expr(&a.right, Some(&var.ty))?;
@@ -464,6 +493,7 @@ impl<'g> FnCx<'g> {
     fn if_let_k(&mut self, l: &syn::ExprLet, then_b: &syn::Block, else_e: Option<&syn::Expr>, expect: Option<&Ty>, k: K) -> R<String> {
         let scrut = self.expr(&l.expr, None)?;
         let sty = self.u.resolve(&scrut.ty);
+        let snap0 = self.scopes.clone();
         self.scopes.push(HashMap::new());
         let pat = self.pattern(&l.pat, &sty)?;
         let then_text = self.block(&then_b.stmts, &|cx, v| {
@@ -472,7 +502,7 @@ impl<'g> FnCx<'g> {
             cx.scopes.push(saved.unwrap());
             r
         })?;
-        self.scopes.pop();
+        self.scopes = snap0;
         let else_text = match else_e {
             Some(e) => self.expr_k(e, expect, k)?,
             None => k(self, None)?,
@@ -488,10 +518,12 @@ impl<'g> FnCx<'g> {
         if sty.is_int() || sty == Ty::Char {
             return self.int_match_k(m, scrut, expect, k);
         }
+        let snap = self.scopes.clone();
         for arm in &m.arms {
             if arm.guard.is_some() {
                 return unsupported("match guard", arm.span());
             }
+            self.scopes = snap.clone();
             self.scopes.push(HashMap::new());
             let pat = self.pattern(&arm.pat, &sty)?;
             let body = self.expr_k(&arm.body, expect, &|cx, v| {
@@ -503,6 +535,7 @@ impl<'g> FnCx<'g> {
             self.scopes.pop();
             arms.push_str(&format!("\n| {} =>\n{}", pat, indent(&body)));
         }
+        self.scopes = snap;
         Ok(wrap(&scrut.steps, format!("match {} with{}", scrut.atom, arms)))
     }
 
@@ -537,8 +570,11 @@ impl<'g> FnCx<'g> {
                     Ok(wrap(&pre, body))
                 }
                 Some(c) => {
+                    let snap = cx.scopes.clone();
                     let body = cx.expr_k(&arm.body, expect, k)?;
+                    cx.scopes = snap.clone();
                     let other = go(cx, rest, s, sty, expect, k)?;
+                    cx.scopes = snap;
                     Ok(format!("if {} then\n{}\nelse\n{}", c, indent(&body), indent(&other)))
                 }
             }
@@ -626,10 +662,11 @@ impl<'g> FnCx<'g> {
         let st_args = st_vars.iter().map(|v| format!(" {}", v.lean)).collect::<String>();
         let is_for = iter.is_some();
         let fuel_arg = if self.uses_fuel_here(body, is_for) { " fuel" } else { "" };
+        let ga = self.generic_args.clone();
         let continue_text = if is_for {
-            format!("{}{}{} rest_{}", loop_name, fuel_arg, cap_args, st_args)
+            format!("{}{}{}{} rest_{}", loop_name, ga, fuel_arg, cap_args, st_args)
         } else {
-            format!("{} fuel{}{}", loop_name, cap_args, st_args)
+            format!("{}{} fuel{}{}", loop_name, ga, cap_args, st_args)
         };
         let break_text = if has_ret { format!(".ok (.done {})", st_tuple) } else { format!(".ok {}", st_tuple) };
         // ---- the loop function
@@ -664,7 +701,7 @@ impl<'g> FnCx<'g> {
         let st_tys: Vec<String> = st_vars.iter().map(|v| lean_ty(&self.u.resolve(&v.ty))).collect();
         let st_ty_text = if st_tys.is_empty() { "Unit".to_string() } else { st_tys.join(" × ") };
         let ret_payload_ty = {
-            let sig_like = FnSig { lean: String::new(), params: self.mut_params.iter().map(|p| Param { name: p.clone(), ty: self.lookup(p).map(|v| v.ty).unwrap_or(Ty::Unit), mut_ref: true }).collect(), ret: self.ret.clone(), fuel: false };
+            let sig_like = FnSig { lean: String::new(), params: self.mut_params.iter().map(|p| Param { name: p.clone(), ty: self.lookup(p).map(|v| v.ty).unwrap_or(Ty::Unit), mut_ref: true }).collect(), ret: self.ret.clone(), fuel: false, generics: vec![] };
             lean_ret(&sig_like).trim_start_matches("Res ").to_string()
         };
         let out_ty = if has_ret { format!("Res (Exit {} ({}))", ret_payload_ty, st_ty_text) } else { format!("Res ({})", st_ty_text) };
@@ -673,8 +710,9 @@ impl<'g> FnCx<'g> {
         let def = if let Some((_, elem_ty, _)) = &iter {
             let fuel_param = if fuel_arg.is_empty() { "" } else { " (fuel : Nat)" };
             format!(
-                "def {}{}{} : List {} → {}{}\n  | []{} => {}\n  | x_ :: rest_{} =>\n{}\n",
+                "def {}{}{}{} : List {} → {}{}\n  | []{} => {}\n  | x_ :: rest_{} =>\n{}\n",
                 loop_name,
+                self.generic_binders,
                 fuel_param,
                 cap_params,
                 lean_ty(&self.u.resolve(elem_ty)),
@@ -687,8 +725,9 @@ impl<'g> FnCx<'g> {
             )
         } else {
             format!(
-                "def {}{} : Nat → {}{}\n  | 0{} => .error .diverge\n  | fuel + 1{} =>\n{}\n",
+                "def {}{}{} : Nat → {}{}\n  | 0{} => .error .diverge\n  | fuel + 1{} =>\n{}\n",
                 loop_name,
+                self.generic_binders,
                 cap_params,
                 st_arrows,
                 out_ty,
@@ -700,9 +739,9 @@ impl<'g> FnCx<'g> {
         self.aux.push(def);
         // ---- the call
         let call = if let Some((_, _, it)) = &iter {
-            format!("{}{}{} {}{}", loop_name, fuel_arg, cap_args, it.atom, st_args)
+            format!("{}{}{}{} {}{}", loop_name, ga, fuel_arg, cap_args, it.atom, st_args)
         } else {
-            format!("{}{} fuel{}", loop_name, cap_args, st_args)
+            format!("{}{}{} fuel{}", loop_name, ga, cap_args, st_args)
         };
         let after = k(self, None)?;
         let iter_steps = iter.map(|(_, _, v)| v.steps).unwrap_or_default();
